@@ -644,6 +644,39 @@ impl Check for C10 {
                     r.expected_removed.extend(ghosts);
                     r.sim.bury_background_tasks();
                     r.sim.crash_node(0);
+                    // one restart in four finds a start time that lies ahead of the clock (the clock was set back while the
+                    // node was down, or the directory moved to a host whose clock is behind): the payments still count
+                    let mut started = started;
+                    if r.cx.rng.gen_bool(0.25) {
+                        #[derive(serde::Serialize)]
+                        struct HistoricQuotingMetrics {
+                            received_payment_count: usize,
+                            timestamp: std::time::SystemTime,
+                        }
+                        let ahead = std::time::SystemTime::now() + std::time::Duration::from_secs(r.cx.rng.gen_range(120..200_000));
+                        let mut stack = vec![root.clone()];
+                        let mut written = false;
+                        while let Some(d) = stack.pop() {
+                            for e in std::fs::read_dir(&d).into_iter().flatten().flatten() {
+                                let p = e.path();
+                                if p.is_dir() {
+                                    stack.push(p);
+                                } else if p.file_name().map(|n| n == "historic_quoting_metrics").unwrap_or(false) {
+                                    if let Ok(old) = std::fs::read(&p) {
+                                        if let Ok((count, _ts)) = rmp_serde::from_slice::<(usize, std::time::SystemTime)>(&old) {
+                                            let bytes = rmp_serde::to_vec(&HistoricQuotingMetrics { received_payment_count: count, timestamp: ahead }).expect("rmp");
+                                            written = std::fs::write(&p, bytes).is_ok();
+                                        }
+                                    }
+                                }
+                            }
+                        }
+                        if written {
+                            started = ahead;
+                            r.cx.count("restarts-with-a-start-time-ahead-of-the-clock");
+                            r.hist.push(json!("clock-set-back"));
+                        }
+                    }
                     r.sim.set_gates_controlled(true);
                     r.sim.add_node(kp.clone(), root.clone(), false);
                     r.sim.nodes[0].drv.verif_store_mut().expect("store").verif_set_limits(r.cap, r.cache);
